@@ -506,12 +506,12 @@ func (m *MRealm) Meta(s int, req wamp.ID, proc string, args wamp.List, kw wamp.D
 }
 
 type histFilter struct {
-	limit                                   int
-	reverse                                 bool
-	from, after, before, until              int64
-	hasFrom, hasAfter, hasBefore, hasUntil  bool
-	topic                                   string
-	fromPub, afterPub, beforePub, untilPub  int
+	limit                                  int
+	reverse                                bool
+	from, after, before, until             int64
+	hasFrom, hasAfter, hasBefore, hasUntil bool
+	topic                                  string
+	fromPub, afterPub, beforePub, untilPub int
 }
 
 // HistEpoch is the virtual-clock origin in Unix ms (set by the harness).
